@@ -17,12 +17,13 @@ MOVE = [[i, v] for i in IDP for v in A.MOVE_VALUE_PALETTES
         if (i == "plain") or (v == "plain") or (i, v) in (("unicode", "adversarial"), ("numeric_ids", "scale_up"))]
 SUMP = [[i, v] for i in ("plain", "unicode", "case_ids") for v in A.SUM_VALUE_PALETTES]
 PLAIN = [["plain", "plain"]]
+MOVE_NOADV = [p for p in MOVE if p[1] != "adversarial"]      # campaigns whose reads include sums
 
 
-def ph(calls, full=False, res="same", pick=0):
+def ph(calls, full=False, res="same", pick=0, recv="a"):
     """one phase of a behaviour: which calls, full or reduced argument alphabet, where results go,
     and pick = how many of the enabled steps are taken per state (0 = all)"""
-    return {"calls": list(calls), "full": full, "res": res, "pick": pick, "salt": 0}
+    return {"calls": list(calls), "full": full, "res": res, "pick": pick, "salt": 0, "recv": recv}
 
 
 REORDER = ["sort_order", "sort", "transpose"]
@@ -34,8 +35,8 @@ def ex(*phases):
 
 
 def model_campaign(name, quick, thorough, palettes=MOVE, cap_quick=6000, cap_thorough=120000, tolerant=False,
-                   judge=("BiomTrace.tla", "BiomTrace.cfg"), gen=("MC_Gen.tla", "MC_Gen.cfg")):
-    return {"name": name, "kind": "model", "phases": {"quick": quick, "thorough": thorough},
+                   judge=("BiomTrace.tla", "BiomTrace.cfg"), gen=("MC_Gen.tla", "MC_Gen.cfg"), heaps="std"):
+    return {"name": name, "kind": "model", "phases": {"quick": quick, "thorough": thorough}, "heaps": heaps,
             "palettes": palettes, "cap": {"quick": cap_quick, "thorough": cap_thorough}, "tolerant": tolerant,
             "judge": list(judge), "gen": list(gen)}
 
@@ -48,7 +49,8 @@ CAMPAIGNS = {
         thorough=[ex(ph(["filter"], True, "r"))]),
     "filter_after_history": model_campaign(
         "filter_after_history",
-        quick=[ex(ph(HIST), ph(["filter"], True, "r", 10)),
+        quick=[ex(ph(HIST), ph(["filter_ids"], True, "r", 6)),
+               ex(ph(REORDER), ph(["filter_pred"], True, "r", 16)),
                ex(ph(HIST), ph(HIST, pick=4), ph(["filter"], True, "r", 3))],
         thorough=[ex(ph(HIST), ph(["filter"], True, "r")),
                   ex(ph(HIST, True, pick=40), ph(HIST, pick=6), ph(["filter"], True, "r", 12)),
@@ -76,7 +78,97 @@ CAMPAIGNS = {
 }
 
 
+IDONLY = [[i, "plain"] for i in IDP]
+INPLACE_OPS = ["filter", "update_ids", "add_metadata", "del_metadata", "transform", "norm", "pa", "rankdata",
+               "remove_empty"]
+NEWTABLE_OPS = ["sort", "sort_order", "transpose", "copy", "head", "align_to"]
+XFORM = ["transform", "norm", "pa", "rankdata"]
+ALLOPS = ["filter", "remove_empty", "head", "sort", "sort_order", "transpose", "copy", "update_ids", "add_metadata",
+          "del_metadata", "transform", "pa", "rankdata", "align_to", "read"]
+LAYOUT = ["sort_order", "transpose", "read", "filter", "sort"]          # calls that change the hidden layout
+
+CAMPAIGNS.update({
+    "coherence_walks": model_campaign(
+        "coherence_walks", palettes=IDONLY, heaps="std",
+        quick=[ex(ph(ALLOPS, True, pick=60), ph(["probe"])),
+               ex(ph(ALLOPS, pick=12), ph(ALLOPS, pick=5), ph(["probe"])),
+               ex(ph(ALLOPS, pick=8), ph(ALLOPS, pick=3), ph(ALLOPS, pick=3), ph(ALLOPS, pick=2), ph(["probe"]))],
+        thorough=[ex(ph(ALLOPS, True), ph(["probe"])),
+                  ex(ph(ALLOPS), ph(ALLOPS, True, pick=30), ph(["probe"])),
+                  ex(ph(ALLOPS, pick=20), ph(ALLOPS, pick=6), ph(ALLOPS, pick=4), ph(ALLOPS, pick=3), ph(ALLOPS, pick=2),
+                     ph(["probe"]))]),
+    "reads_full": model_campaign(
+        "reads_full", palettes=MOVE_NOADV,
+        quick=[ex(ph(["read"], True)), ex(ph(LAYOUT, pick=10), ph(["read"], True, pick=12)),
+               ex(ph(LAYOUT, pick=6), ph(LAYOUT, pick=3), ph(["read"], True, pick=6))],
+        thorough=[ex(ph(LAYOUT), ph(["read"], True)),
+                  ex(ph(LAYOUT), ph(LAYOUT, pick=6), ph(["read"], True, pick=12))]),
+    "no_showthrough": model_campaign(
+        "no_showthrough", palettes=IDONLY,
+        quick=[ex(ph(NEWTABLE_OPS + INPLACE_OPS, False, "r"), ph(INPLACE_OPS, False, "same", 8, "r")),
+               ex(ph(LAYOUT, pick=6), ph(NEWTABLE_OPS + INPLACE_OPS, False, "r", 8), ph(INPLACE_OPS, False, "same", 4, "r"))],
+        thorough=[ex(ph(NEWTABLE_OPS + INPLACE_OPS, True, "r", 60), ph(INPLACE_OPS, False, "same", 0, "r")),
+                  ex(ph(LAYOUT), ph(NEWTABLE_OPS + INPLACE_OPS, False, "r"), ph(INPLACE_OPS, False, "same", 10, "r"))]),
+    "inplace_twins": model_campaign(
+        "inplace_twins", palettes=IDONLY,
+        quick=[ex(ph(INPLACE_OPS, True, "r", 150)),
+               ex(ph(LAYOUT, pick=8), ph(INPLACE_OPS, True, "r", 14))],
+        thorough=[ex(ph(INPLACE_OPS, True, "r")),
+                  ex(ph(LAYOUT), ph(INPLACE_OPS, True, "r", 40))]),
+    "equality_routes": model_campaign(
+        "equality_routes", palettes=MOVE_NOADV, heaps="eq",
+        quick=[ex(ph(["eq"])),
+               ex(ph(["read"], True), ph(["eq"])),
+               ex(ph(["read"], False, "same", 0, "b"), ph(["eq"])),
+               ex(ph(["read"], True, pick=6), ph(["read"], False, "same", 3, "b"), ph(["eq"])),
+               ex(ph(["filter", "sort_order", "transpose", "copy", "update_ids"], True, pick=20), ph(["read"], pick=2),
+                  ph(["eq"]))],
+        thorough=[ex(ph(["read"], True), ph(["read"], True, "same", 0, "b"), ph(["eq"])),
+                  ex(ph(["filter", "sort_order", "transpose", "copy", "update_ids", "add_metadata", "del_metadata"], True),
+                     ph(["read"], pick=3), ph(["eq"]))]),
+    "transforms": model_campaign(
+        "transforms", palettes=IDONLY + [["plain", "scale_down"], ["unicode", "scale_up"], ["case_ids", "scale_down"]],
+        quick=[ex(ph(XFORM, True, "r")),
+               ex(ph(LAYOUT, pick=10), ph(XFORM, True, "r", 14)),
+               ex(ph(LAYOUT, pick=6), ph(LAYOUT, pick=3), ph(XFORM, True, "r", 5))],
+        thorough=[ex(ph(LAYOUT), ph(XFORM, True, "r")),
+                  ex(ph(LAYOUT), ph(LAYOUT, pick=6), ph(XFORM, True, "r", 20))]),
+    "metadata_updates": model_campaign(
+        "metadata_updates", palettes=IDONLY,
+        quick=[ex(ph(["add_metadata", "del_metadata"], True)),
+               ex(ph(HIST + ["add_metadata", "del_metadata"], pick=12), ph(["add_metadata", "del_metadata"], True, pick=12)),
+               ex(ph(["add_metadata", "del_metadata"], True, pick=10), ph(["add_metadata", "del_metadata"], True, pick=6))],
+        thorough=[ex(ph(HIST + ["add_metadata", "del_metadata"]), ph(["add_metadata", "del_metadata"], True)),
+                  ex(ph(["add_metadata", "del_metadata"], True), ph(["add_metadata", "del_metadata"], True))]),
+})
+
+
 PROPERTIES = {
+    "C05": {
+        "level": "model_checking",
+        "campaigns": [CAMPAIGNS["coherence_walks"], CAMPAIGNS["reads_full"]],
+        "assumptions": ["copy.deepcopy, scipy toarray and numpy are trusted for the projection"],
+    },
+    "C07": {
+        "level": "model_checking",
+        "campaigns": [CAMPAIGNS["inplace_twins"], CAMPAIGNS["no_showthrough"], CAMPAIGNS["reorder_full"]],
+        "assumptions": ["copy.deepcopy, scipy toarray and numpy are trusted for the projection"],
+    },
+    "C13": {
+        "level": "model_checking",
+        "campaigns": [CAMPAIGNS["transforms"]],
+        "assumptions": ["results of divisions are mapped to the nearest small rational within 1e-12 relative"],
+    },
+    "C16": {
+        "level": "model_checking",
+        "campaigns": [CAMPAIGNS["equality_routes"], CAMPAIGNS["reads_full"]],
+        "assumptions": ["copy.deepcopy, scipy toarray and numpy are trusted for the projection"],
+    },
+    "C18": {
+        "level": "model_checking",
+        "campaigns": [CAMPAIGNS["metadata_updates"]],
+        "assumptions": [],
+    },
     "C08": {
         "level": "model_checking",
         "campaigns": [CAMPAIGNS["filter_direct"], CAMPAIGNS["filter_after_history"],
@@ -104,7 +196,7 @@ def run_campaign(camp, tier, seed, wd):
         i, phases = arg
         phases = [dict(p_, salt=(seed * 31 + 7 * k_ + i) % 9973) for k_, p_ in enumerate(phases)]
         return P.generate(phases, wd, module=camp["gen"][0], cfg=camp["gen"][1],
-                          name="gen_%s_%d" % (camp["name"], i))
+                          name="gen_%s_%d" % (camp["name"], i), extra_env={"GEN_HEAPS": camp.get("heaps", "std")})
     with cf.ThreadPoolExecutor(max_workers=4) as ex_:
         for b, st in ex_.map(gen_one, list(enumerate(camp["phases"][tier]))):
             behaviours.extend(b)
